@@ -29,11 +29,12 @@
      convert_if_needed, ta_binop     TimeArray._convert_if_needed and + - r+ r- < <= > >= ==
                                      (timeseries.py 255-300)
      ta_setitem (ta_setitem_old)     TimeArray.__setitem__ (248-253)
-     ut_convert_check, ut_iop, follow_shift, ut_imul
+     ut_convert, ut_check, ut_convert_check, ut_iop, follow_shift, rebind_scaled, ut_imul
                                      UniformTime._convert_and_check_uniformity, __iadd__/__isub__,
-                                     _follow_shift, __imul__ (759-825; after c4c4884, 9a1272e)
-     copy_arr, ut_copy (ut_copy_old) ndarray.copy + __array_finalize__; UniformTime.copy
-     ts_copy, ts_binop, ts_iop       TimeSeries.copy, + - * via copy, += -= *= (1004-1045, 1076-1080)
+                                     _follow_shift, __imul__ (after c4c4884, 9a1272e)
+     copy_arr, ut_copy_attrs, ut_copy (ut_copy_old)
+                                     ndarray.copy + __array_finalize__; UniformTime.copy (after 30eef3b)
+     ts_copy, ts_apply, ts_binop, ts_iop   TimeSeries.copy, + - * via copy, += -= *=
      csd (csd_old)                   periodogram_csd's handling of its argument up to the transform
                                      (algorithms/spectral.py 311-325)
      boxcar (boxcar_old), filtered_boxcar   algorithms/filter.py 48-53,69,95,104-107;
